@@ -156,7 +156,7 @@ func hookOneFunc(ov map[string][]byte, dir string, h hookInfo) (bool, error) {
 					}
 					k++
 					params = append(params, pn+" "+typ)
-					hookParams = append(hookParams, pn+" "+strings.Replace(typ, "...", "[]", 1))
+					hookParams = append(hookParams, pn+" "+typ)
 					if strings.HasPrefix(typ, "...") {
 						args = append(args, pn+"...")
 					} else {
@@ -184,7 +184,6 @@ func hookOneFunc(ov map[string][]byte, dir string, h hookInfo) (bool, error) {
 				ret = "return "
 			}
 			hookArgs := strings.Join(args, ", ")
-			hookArgs = strings.ReplaceAll(hookArgs, "...", "")
 			fmt.Fprintf(&out, "\n\n// ---- verification hook (overlay only, never written to /repo) ----\n")
 			if recvType != "" {
 				hp := append([]string{recvName + " " + recvType}, hookParams...)
